@@ -2,7 +2,7 @@
 //@ props C16 C01
 //@ kind L
 //@ entry h_ser_primitives
-//@ note L: loop-free; every buffer size 8 <= fBufSize <= 24 (one static object of exactly fBufSize bytes each: all residues mod 8 twice; a heap block of symbolic size makes cbmc's array post-processing diverge), symbolic cursor offset 0..fBufSize, symbolic value (every bit pattern of the type, floats compared bitwise), each of the 14 primitive pairs selected by a symbolic tag; for larger buffers the code is assumed parametric in fBufSize (it enters only through fBufEnd / fBufLoadMax = fBufStart + fBufSize in the room test)
+//@ note L: loop-free; buffer sizes fBufSize in {8..17, 24} (one static object of exactly fBufSize bytes each: every residue mod 8, the minimum, and sizes above two 8-byte slots; a heap block of symbolic size makes cbmc's array post-processing diverge), symbolic cursor offset 0..fBufSize, symbolic value (every bit pattern of the type, floats compared bitwise), each of the 14 primitive pairs selected by a symbolic tag; for larger buffers the code is assumed parametric in fBufSize (it enters only through fBufEnd / fBufLoadMax = fBufStart + fBufSize in the room test)
 //@ note fBufSize >= 8 is required for safety (an 8-byte primitive must fit into an empty buffer); the constructors accept any bufSize (default 8192) -- recorded as a precondition of the engine, see final report
 //@ note alignment is computed by the code from the ADDRESS of fBufCur; cbmc's address of (object, offset) is congruent to offset mod 8, i.e. the unit assumes fBufStart is 8-byte aligned in the storing and in the loading engine (true for MemoryManagerImpl / operator new)
 //@ note flushBuffer / fillBuffer are stubs that do what unit ser_fillflush proves of the real bodies (cursor back to fBufStart, fBufLoadMax = fBufStart + fBufSize, counter FLUSHED / FILLED); the same heap block stands for "the block the cursor is in" on both sides, so a value written after a flush is read after the matching fill
@@ -227,41 +227,42 @@ throws XSerializeEngine_checkAndFillBuffer
 @*/
 
 /* one buffer OBJECT per size, so that cbmc's object bounds are exactly [fBufStart, fBufStart + fBufSize) */
-#define BUFS(X) X(8) X(9) X(10) X(11) X(12) X(13) X(14) X(15) X(16) X(17) X(18) X(19) X(20) X(21) X(22) X(23) X(24)
+#define BUFS(X) X(8) X(9) X(10) X(11) X(12) X(13) X(14) X(15) X(16) X(17) X(24)
 #define DECL(n) static XMLByte BUF##n[n] __attribute__((aligned(8)));
 #define SEL(n) case n: buf = BUF##n; break;
 BUFS(DECL)
 #define BSMAX 24
-union val { XMLCh xch; XMLByte by; bool b; char ch; short sh; int i; unsigned int ui; long l; unsigned long ul; float f; double d;
-            XMLSize_t sz; XMLInt64 i64; XMLUInt64 u64; unsigned char raw[8]; };
+/* value under test as raw bytes (a nondet union is not bit-consistent between its members in cbmc 6.11) */
+struct { unsigned char a[8]; } V, W;
 
 void h_ser_primitives(void)
 {
-  XMLSize_t bs, off; int ty; unsigned long cnt0; union val v, w; _Bool bb;
-  VERIF_INPUT(bs); VERIF_INPUT(off); VERIF_INPUT(ty); VERIF_INPUT(cnt0); VERIF_INPUT(v); VERIF_INPUT(w); VERIF_INPUT(bb);
-  VERIF_ASSUME(bs >= 8 && bs <= BSMAX && off <= bs && ty >= 0 && ty <= 13);
+  XMLSize_t bs, off; int ty; unsigned long cnt0;
+  VERIF_INPUT(bs); VERIF_INPUT(off); VERIF_INPUT(ty); VERIF_INPUT(cnt0); VERIF_INPUT(V); VERIF_INPUT(W);
+  VERIF_ASSUME(bs >= 8 && (bs <= 17 || bs == BSMAX) && off <= bs && ty >= 0 && ty <= 13);
+  VERIF_ASSUME(ty != 2 || V.a[0] <= 1);      /* a bool object holds 0 or 1 */
   XMLByte *buf = 0;
   switch (bs) { BUFS(SEL) default: break; }
-  if (ty == 2) v.b = bb;                 /* a bool object holds 0 or 1 */
 
   /* ---- store ---- */
   fStoreLoad = mode_Store; fBufSize = bs; fBufStart = buf; fBufEnd = buf + bs; fBufCur = buf + off; fBufLoadMax = 0; fBufCount = cnt0;
   FLUSHED = 0; FILLED = 0; verif_thrown = 0;
   switch (ty) {
-    case 0: XSerializeEngine_put_XMLCh(v.xch); break;
-    case 1: XSerializeEngine_put_XMLByte(v.by); break;
-    case 2: XSerializeEngine_put_bool(v.b); break;
-    case 3: XSerializeEngine_put_char(v.ch); break;
-    case 4: XSerializeEngine_put_short(v.sh); break;
-    case 5: XSerializeEngine_put_int(v.i); break;
-    case 6: XSerializeEngine_put_uint(v.ui); break;
-    case 7: XSerializeEngine_put_long(v.l); break;
-    case 8: XSerializeEngine_put_ulong(v.ul); break;
-    case 9: XSerializeEngine_put_float(v.f); break;
-    case 10: XSerializeEngine_put_double(v.d); break;
-    case 11: XSerializeEngine_writeSize(v.sz); break;
-    case 12: XSerializeEngine_writeInt64(v.i64); break;
-    default: XSerializeEngine_writeUInt64(v.u64); break;
+    case 0: { XMLCh x; memcpy(&x, V.a, sizeof x); XSerializeEngine_put_XMLCh(x); } break;
+    case 1: { XMLByte x; memcpy(&x, V.a, sizeof x); XSerializeEngine_put_XMLByte(x); } break;
+    case 2: { bool x; memcpy(&x, V.a, sizeof x); XSerializeEngine_put_bool(x); } break;
+    case 3: { char x; memcpy(&x, V.a, sizeof x); XSerializeEngine_put_char(x); } break;
+    case 4: { short x; memcpy(&x, V.a, sizeof x); XSerializeEngine_put_short(x); } break;
+    case 5: { int x; memcpy(&x, V.a, sizeof x); XSerializeEngine_put_int(x); } break;
+    case 6: { unsigned int x; memcpy(&x, V.a, sizeof x); XSerializeEngine_put_uint(x); } break;
+    case 7: { long x; memcpy(&x, V.a, sizeof x); XSerializeEngine_put_long(x); } break;
+    case 8: { unsigned long x; memcpy(&x, V.a, sizeof x); XSerializeEngine_put_ulong(x); } break;
+    case 9: { float x; memcpy(&x, V.a, sizeof x); XSerializeEngine_put_float(x); } break;
+    case 10: { double x; memcpy(&x, V.a, sizeof x); XSerializeEngine_put_double(x); } break;
+    case 11: { XMLSize_t x; memcpy(&x, V.a, sizeof x); XSerializeEngine_writeSize(x); } break;
+    case 12: { XMLInt64 x; memcpy(&x, V.a, sizeof x); XSerializeEngine_writeInt64(x); } break;
+    case 13: { XMLUInt64 x; memcpy(&x, V.a, sizeof x); XSerializeEngine_writeUInt64(x); } break;
+    default: break;
   }
   __CPROVER_assert(!verif_thrown, "C16: storing a primitive never throws by itself");
   __CPROVER_assert(RI_SER_STORE, "C01: RI_ser (store) re-established");
@@ -271,28 +272,29 @@ void h_ser_primitives(void)
   /* ---- load, from the same cursor offset ---- */
   fStoreLoad = mode_Load; fBufEnd = 0; fBufCur = buf + off; fBufLoadMax = buf + bs;
   switch (ty) {
-    case 0: XSerializeEngine_get_XMLCh(&w.xch); break;
-    case 1: XSerializeEngine_get_XMLByte(&w.by); break;
-    case 2: XSerializeEngine_get_bool(&w.b); break;
-    case 3: XSerializeEngine_get_char(&w.ch); break;
-    case 4: XSerializeEngine_get_short(&w.sh); break;
-    case 5: XSerializeEngine_get_int(&w.i); break;
-    case 6: XSerializeEngine_get_uint(&w.ui); break;
-    case 7: XSerializeEngine_get_long(&w.l); break;
-    case 8: XSerializeEngine_get_ulong(&w.ul); break;
-    case 9: XSerializeEngine_get_float(&w.f); break;
-    case 10: XSerializeEngine_get_double(&w.d); break;
-    case 11: XSerializeEngine_readSize(&w.sz); break;
-    case 12: XSerializeEngine_readInt64(&w.i64); break;
-    default: XSerializeEngine_readUInt64(&w.u64); break;
+    case 0: { XMLCh y; XSerializeEngine_get_XMLCh(&y); memcpy(W.a, &y, sizeof y); } break;
+    case 1: { XMLByte y; XSerializeEngine_get_XMLByte(&y); memcpy(W.a, &y, sizeof y); } break;
+    case 2: { bool y; XSerializeEngine_get_bool(&y); memcpy(W.a, &y, sizeof y); } break;
+    case 3: { char y; XSerializeEngine_get_char(&y); memcpy(W.a, &y, sizeof y); } break;
+    case 4: { short y; XSerializeEngine_get_short(&y); memcpy(W.a, &y, sizeof y); } break;
+    case 5: { int y; XSerializeEngine_get_int(&y); memcpy(W.a, &y, sizeof y); } break;
+    case 6: { unsigned int y; XSerializeEngine_get_uint(&y); memcpy(W.a, &y, sizeof y); } break;
+    case 7: { long y; XSerializeEngine_get_long(&y); memcpy(W.a, &y, sizeof y); } break;
+    case 8: { unsigned long y; XSerializeEngine_get_ulong(&y); memcpy(W.a, &y, sizeof y); } break;
+    case 9: { float y; XSerializeEngine_get_float(&y); memcpy(W.a, &y, sizeof y); } break;
+    case 10: { double y; XSerializeEngine_get_double(&y); memcpy(W.a, &y, sizeof y); } break;
+    case 11: { XMLSize_t y; XSerializeEngine_readSize(&y); memcpy(W.a, &y, sizeof y); } break;
+    case 12: { XMLInt64 y; XSerializeEngine_readInt64(&y); memcpy(W.a, &y, sizeof y); } break;
+    case 13: { XMLUInt64 y; XSerializeEngine_readUInt64(&y); memcpy(W.a, &y, sizeof y); } break;
+    default: break;
   }
   VERIF_CANARY("after call");
   __CPROVER_assert(!verif_thrown, "C16: loading a primitive never throws by itself");
   __CPROVER_assert(RI_SER_LOAD, "C01: RI_ser (load) re-established");
   __CPROVER_assert(FILLED == flushed, "C16: the load side refills exactly where the store side flushed");
   __CPROVER_assert(SER_OFS(fBufCur) == off1, "C16: same final cursor offset (alignAdjust / calBytesNeeded / alignBufCur symmetric)");
-  XMLSize_t sz = (ty == 0 || ty == 4) ? 2 : (ty >= 1 && ty <= 3) ? 1 : (ty == 5 || ty == 6 || ty == 9) ? 4 : 8;
-  __CPROVER_assert(w.raw[0] == v.raw[0] && (sz < 2 || w.raw[1] == v.raw[1]) && (sz < 4 || (w.raw[2] == v.raw[2] && w.raw[3] == v.raw[3])) &&
-                   (sz < 8 || (w.raw[4] == v.raw[4] && w.raw[5] == v.raw[5] && w.raw[6] == v.raw[6] && w.raw[7] == v.raw[7])),
+  XMLSize_t sz = (ty == 0) ? 2 : (ty == 1) ? 1 : (ty == 2) ? 1 : (ty == 3) ? 1 : (ty == 4) ? 2 : (ty == 5) ? 4 : (ty == 6) ? 4 : (ty == 7) ? 8 : (ty == 8) ? 8 : (ty == 9) ? 4 : (ty == 10) ? 8 : (ty == 11) ? 8 : (ty == 12) ? 8 : 8;
+  __CPROVER_assert(W.a[0] == V.a[0] && (sz < 2 || W.a[1] == V.a[1]) && (sz < 4 || (W.a[2] == V.a[2] && W.a[3] == V.a[3])) &&
+                   (sz < 8 || (W.a[4] == V.a[4] && W.a[5] == V.a[5] && W.a[6] == V.a[6] && W.a[7] == V.a[7])),
                    "C16: store-then-load yields the same value (all bytes of the object representation)");
 }
